@@ -181,13 +181,16 @@ class GroundedPrecondition:
         )
         positive_condition_predicate = condition.copy()
         positive_condition_predicate.is_positive = True
-
+        # the fact is looked up among the facts of the state (its text may also occur inside a fluent of the same name).
+        fact = positive_condition_predicate.untyped_representation
+        fact_in_state = any(
+            fact == state_predicate.untyped_representation
+            for state_predicates in state.state_predicates.values()
+            for state_predicate in state_predicates
+        )
         is_applicable = BinaryOperator[preconditions.binary_operator](
             prev_is_applicable,
-            condition.untyped_representation in state.serialize()
-            if condition.is_positive
-            else positive_condition_predicate.untyped_representation
-            not in state.serialize(),
+            fact_in_state if condition.is_positive else not fact_in_state,
         )
         return is_applicable
 
